@@ -164,8 +164,12 @@ struct Lower {
     T = T.getCanonicalType();
     if (auto* RT = T->getAs<ReferenceType>()) return declare(C.getPointerType(RT->getPointeeType()), name, byValue);
     if (auto* MPT = T->getAs<MemberPointerType>()) {
-      (void)MPT;
-      die("member pointer type as run-time value: " + T.getAsString());
+      // pointer to (non-virtual) member function: a C pointer to the lowered method, `this` first
+      auto* FT = MPT->getPointeeType()->getAs<FunctionProtoType>();
+      if (!FT) die("pointer to data member as run-time value: " + T.getAsString());
+      std::string params = declare(C.getPointerType(QualType(MPT->getClass(), 0)), "", false);
+      for (QualType A : FT->param_types()) params += ", " + declare(A, "", true);
+      return declare(FT->getReturnType(), "(*" + name + ")(" + params + ")", true);
     }
     if (auto* PT = T->getAs<PointerType>()) {
       QualType P = PT->getPointeeType();
@@ -594,7 +598,11 @@ struct Lower {
     if (auto* DR = dyn_cast<DeclRefExpr>(E)) {
       const ValueDecl* D = DR->getDecl();
       if (auto* EC = dyn_cast<EnumConstantDecl>(D)) return lit(EC->getInitVal(), E->getType());
-      if (auto* FD = dyn_cast<FunctionDecl>(D)) { need(FD); return fnName(FD); }
+      if (auto* FD = dyn_cast<FunctionDecl>(D)) {
+        if (auto* MD = dyn_cast<CXXMethodDecl>(FD)) if (MD->isVirtual()) die("pointer to virtual member function", E);
+        need(FD);
+        return fnName(FD);
+      }
       if (auto* VD = dyn_cast<VarDecl>(D)) {
         if (!VD->isLocalVarDeclOrParm() || VD->isStaticLocal()) {
           Expr::EvalResult R;
@@ -721,8 +729,25 @@ struct Lower {
       const CXXMethodDecl* M = MC_->getMethodDecl();
       const Expr* Obj = MC_->getImplicitObjectArgument();
       if (!M) {
-        // call through a pointer to member function: only a constant one could be resolved
-        die("call through pointer to member function", E);
+        // call through a pointer to member function value: (obj.*pmf)(args) / (ptr->*pmf)(args)
+        auto* BO = dyn_cast<BinaryOperator>(MC_->getCallee()->IgnoreParens());
+        if (!BO || (BO->getOpcode() != BO_PtrMemD && BO->getOpcode() != BO_PtrMemI)) die("call through pointer to member function", E);
+        auto* MPT = BO->getRHS()->getType()->getAs<MemberPointerType>();
+        auto* FT = MPT ? MPT->getPointeeType()->getAs<FunctionProtoType>() : nullptr;
+        if (!FT) die("member pointer call type", E);
+        std::string obj = ex(BO->getLHS(), cx);
+        std::string thisArg = BO->getOpcode() == BO_PtrMemI ? obj : "(&" + obj + ")";
+        std::string pmf = ex(BO->getRHS(), cx);
+        std::string s2 = thisArg;
+        unsigned i = 0;
+        for (const Expr* A : MC_->arguments()) {
+          std::string a = ex(A, cx);
+          if (i < FT->getNumParams() && FT->getParamType(i)->isReferenceType()) a = "(&" + a + ")";
+          s2 += ", " + a;
+          i++;
+        }
+        std::string call = "(" + pmf + ")(" + s2 + ")";
+        return FT->getReturnType()->isReferenceType() ? "(*" + call + ")" : call;
       }
       if (isa<CXXDestructorDecl>(M)) {
         std::string o = ex(Obj, cx);
